@@ -259,6 +259,9 @@ impl Prop for C12 {
         vec!["angle is in degrees counter-clockwise, reflection is about the x-axis and applied first (as documented on raw::Instance and GdsStrans)".into(),
              "general angles: reference is f64 with exact range reduction; judged only to 0.5+1e-5 units".into()]
     }
+    fn miri_gen(&self) -> Option<&'static str> {
+        Some("general-angles")
+    }
     fn plan(&self, tier: Tier) -> Vec<GenSpec> {
         let mut v = vec![
             GenSpec::enumerated("words-depth1", 14 * 9),
